@@ -34,10 +34,12 @@ from nauyaca.server.protocol import GeminiServerProtocol  # noqa: E402
 OWN = {"C06": {"PrefixAlways", "CompleteAtClose", "ByteExact"},
        "C01": {"ClosedAfterCloseNotify", "CompleteAtClose"},
        "C07": {"PlainInOrder", "PlainComplete", "SegIndepTls"},
+       "C08": {"PlainInOrder", "PlainComplete"},      # a valid request line reaches the inner protocol intact through the TLS layer
        "C15": {"HsTimerWhileHandshaking", "HsTimeoutCloses", "ClosedAfterCloseNotify"},
        "C20": {"InnerOnlyAfterHandshake", "NoPlainBeforeTls"}}
 DEVS = {"C01": {},
         "C06": {"DevSingleSendCall": ["CompleteAtClose"]}, "C07": {"DevReadOnceAfterHandshake": ["PlainComplete"]},
+        "C08": {"DevReadOnceAfterHandshake": ["PlainComplete"]},
         "C15": {"DevNoHsTimer": ["HsTimerWhileHandshaking"]}, "C20": {}}
 HS_TIMEOUT = 10.0
 HEADER = b"20 application/octet-stream\r\n"
